@@ -24,6 +24,7 @@ const K_TRANSIT: u16 = 44;
 const K_PLAN: u16 = 45;
 const K_PROBE: u16 = 46;
 const K_HELLO: u16 = 47;
+const K_BYE: u16 = 48;
 
 #[derive(Debug, Clone, Copy, Serialize, Deserialize, PartialEq)]
 pub enum Restart {
@@ -56,6 +57,10 @@ pub struct VictimPlan {
     /// the victim's tasks are created with spawn_local instead of tokio::spawn
     #[serde(default)]
     pub local_tasks: bool,
+    /// the victim is not a hand-written module but an `AsyncFn` block: one task that receives the module's messages
+    /// (no ticker / beat chain / resets visible; shutdowns are requested from inside that task on command messages)
+    #[serde(default)]
+    pub async_fn: bool,
 }
 
 #[derive(Debug, Clone, Serialize, Deserialize, PartialEq)]
@@ -80,6 +85,8 @@ pub enum Kind {
     Probe(bool),
     /// p1: the message that incarnation `inc` of the victim sends from its first start-up stage
     Hello(u32),
+    /// p1: the message the victim sends in the very event in which it requests shutdown `j` (sent while still up)
+    Bye(usize),
 }
 
 #[derive(Debug, Clone, Copy, PartialEq, Eq, Serialize, Deserialize)]
@@ -164,6 +171,7 @@ impl Module for Victim {
                 let killer = async move {
                     sleep_until(st(sd.at)).await;
                     log(2 + k, k, inc, Kind::KillerFired(j));
+                    send(Message::default().kind(K_BYE).id(j as u16), "up");
                     request(sd.restart);
                 };
                 if local {
@@ -187,6 +195,7 @@ impl Module for Victim {
             K_CMD => {
                 let j = h.id as usize;
                 log(2 + self.k, self.k, self.inc, Kind::Cmd(j));
+                send(Message::default().kind(K_BYE).id(j as u16), "up");
                 request(self.plan.shutdowns[j].restart);
             }
             K_DATA => log(2 + self.k, self.k, self.inc, Kind::Data(h.id as usize)),
@@ -241,6 +250,11 @@ impl Module for Root {
 struct Sink;
 impl Module for Sink {
     fn handle_message(&mut self, msg: Message) {
+        if msg.header().kind == K_BYE {
+            let gate = msg.header().last_gate.as_ref().map_or(String::new(), |g| g.name().to_string());
+            let v: usize = gate.trim_start_matches("hello").parse().unwrap_or(usize::MAX);
+            log(1, v, 0, Kind::Bye(msg.header().id as usize));
+        }
         if msg.header().kind == K_HELLO {
             let gate = msg.header().last_gate.as_ref().map_or(String::new(), |g| g.name().to_string());
             let v: usize = gate.trim_start_matches("hello").parse().unwrap_or(usize::MAX);
@@ -283,7 +297,36 @@ pub fn execute(case: &Case) -> Observed {
         let lat = |ns: u64| Some(Channel::new(ChannelMetrics::new(0, Duration::from_nanos(ns), Duration::ZERO, ChannelDropBehaviour::Queue(None))));
         for (v, vp) in case.victims.iter().enumerate() {
             let path = format!("p0.v{v}");
-            sim.node(path.as_str(), Victim { k: v, plan: vp.clone(), horizon: case.horizon, inc: 0 });
+            if vp.async_fn {
+                let plan = vp.clone();
+                let starts = std::sync::Arc::new(std::sync::atomic::AtomicU32::new(0));
+                sim.node(
+                    path.as_str(),
+                    des::net::blocks::AsyncFn::new(move |mut rx| {
+                        let inc = starts.fetch_add(1, std::sync::atomic::Ordering::SeqCst);
+                        let plan = plan.clone();
+                        async move {
+                            log(2 + v, v, inc, Kind::Start(0));
+                            send(Message::default().kind(K_HELLO).id(inc as u16), "up");
+                            while let Some(msg) = rx.recv().await {
+                                let h = msg.header();
+                                match h.kind {
+                                    K_CMD => {
+                                        let j = h.id as usize;
+                                        log(2 + v, v, inc, Kind::Cmd(j));
+                                        send(Message::default().kind(K_BYE).id(j as u16), "up");
+                                        request(plan.shutdowns[j].restart);
+                                    }
+                                    K_DATA => log(2 + v, v, inc, Kind::Data(h.id as usize)),
+                                    _ => {}
+                                }
+                            }
+                        }
+                    }),
+                );
+            } else {
+                sim.node(path.as_str(), Victim { k: v, plan: vp.clone(), horizon: case.horizon, inc: 0 });
+            }
             let c0 = sim.gate("p0", &format!("cmd{v}"));
             let c1 = sim.gate(path.as_str(), "cmd");
             c0.connect(c1, None);
@@ -411,10 +454,14 @@ pub fn reference(case: &Case) -> Reference {
             }
         }
         for (i, (at, _)) in downs.iter().enumerate() {
-            r.mandatory.push(Expect { module: m, about: v, kind: Kind::Reset, t: *at, inc: Some(i as u32) });
+            if !vp.async_fn {
+                r.mandatory.push(Expect { module: m, about: v, kind: Kind::Reset, t: *at, inc: Some(i as u32) });
+            }
             let j = effective[i];
             let kind = if vp.shutdowns[j].via_task { Kind::KillerFired(j) } else { Kind::Cmd(j) };
             r.mandatory.push(Expect { module: m, about: v, kind, t: *at, inc: Some(i as u32) });
+            // what the module sent in that event, while it was still up, is delivered
+            r.mandatory.push(Expect { module: 1, about: v, kind: Kind::Bye(j), t: *at, inc: None });
         }
         // --- beat chains: a beat is a message, it is handled iff the victim is up when it arrives
         let mut beats: Vec<u64> = starts.iter().filter(|(s, _)| s + vp.beat_period <= case.horizon).map(|(s, _)| s + vp.beat_period).collect();
@@ -524,6 +571,7 @@ pub fn check(case: &Case, o: &Observed) -> Vec<Finding> {
                 Kind::Beat | Kind::Data(_) | Kind::Cmd(_) => "message-handled-while-down-or-twice",
                 Kind::TransitRecv(_) => "transit-through-down-module",
                 Kind::Hello(_) => "unexpected-startup-message",
+                Kind::Bye(_) => "unexpected-last-message",
                 Kind::Start(_) => "unexpected-start",
                 Kind::Reset => "unexpected-reset",
                 Kind::Probe(_) => "active-flag",
@@ -544,6 +592,7 @@ pub fn check(case: &Case, o: &Observed) -> Vec<Finding> {
                 Kind::Probe(_) => "active-flag",
                 Kind::TransitRecv(_) => "other-module-affected",
                 Kind::Hello(_) => "startup-send-lost",
+                Kind::Bye(_) => "send-before-shutdown-lost",
                 _ => "not-handled-while-up",
             };
             f.push((
@@ -572,6 +621,10 @@ pub fn check(case: &Case, o: &Observed) -> Vec<Finding> {
     }
     // sequence: between a reset and the following start(0) the victim logs nothing; start stages in order
     for v in 0..case.victims.len() {
+        if case.victims[v].async_fn {
+            // no reset entries to anchor on; the multiset comparison above covers these victims
+            continue;
+        }
         let m = 2 + v;
         let mut down_since: Option<usize> = None;
         let mut next_stage = 0usize;
@@ -679,10 +732,17 @@ pub fn gen_case(rng: &mut Rng, coincide: bool) -> Case {
         transit.retain(|t| t + ta + tb < horizon);
         data.truncate(60);
         transit.truncate(60);
+        let async_fn = rng.chance(1, 4);
+        if async_fn {
+            for sd in shutdowns.iter_mut() {
+                sd.via_task = false;
+            }
+        }
         victims.push(VictimPlan {
-            stages: 1 + rng.usize_below(3),
-            tick_period: (1 + rng.below(12)) * 10 * MS,
-            beat_period: (1 + rng.below(15)) * 10 * MS,
+            stages: if async_fn { 1 } else { 1 + rng.usize_below(3) },
+            // an AsyncFn victim has neither ticker nor beat chain
+            tick_period: if async_fn { horizon + 1 } else { (1 + rng.below(12)) * 10 * MS },
+            beat_period: if async_fn { horizon + 1 } else { (1 + rng.below(15)) * 10 * MS },
             shutdowns,
             data,
             transit,
@@ -690,11 +750,17 @@ pub fn gen_case(rng: &mut Rng, coincide: bool) -> Case {
             transit_latency_a: ta,
             transit_latency_b: tb,
             local_tasks: rng.chance(1, 3),
+            async_fn,
         });
     }
     // two victims sharing the same shutdown / restart instants
     if victims.len() >= 2 && rng.chance(1, 3) {
-        let s = victims[0].shutdowns.clone();
+        let mut s = victims[0].shutdowns.clone();
+        if victims[1].async_fn {
+            for sd in s.iter_mut() {
+                sd.via_task = false;
+            }
+        }
         victims[1].shutdowns = s;
     }
     Case { victims, horizon, probe_period: (3 + rng.below(10)) * 10 * MS + 9 * MS }
@@ -747,6 +813,7 @@ pub fn cmd(args: &Args) -> Report {
                 }
             }
         }
+        rep.count("async_fn_victims_restarted", case.victims.iter().zip(&r.downs).filter(|(v, d)| v.async_fn && d.iter().any(|(_, rt)| rt.is_some())).count() as u64);
         rep.count("victims_with_spawn_local_tasks_shut_down", case.victims.iter().zip(&r.downs).filter(|(v, d)| v.local_tasks && !d.is_empty()).count() as u64);
         rep.count("data_messages_due_while_down", dropped_data as u64);
         rep.count("transit_messages_due_while_down", dropped_transit as u64);
